@@ -580,6 +580,29 @@ def loop_programs():
                     prog = {"mode": mode, "lib": [pa, ch], "page": [("comp", "pa", [("l", ("var", "xs"))], False, [])],
                             "ctx": [("p", "Pv"), ("xs", ["I1", "I2", "I3"])], "nerr": 0}
                     out.append(("loops:%s%s/%s" % (reads, "-only" if child_only else "", body), mode, prog))
+    # what is bound BETWEEN a loop and an isolated component tag must not reach the template either: a with-variable, the
+    # data of a parent component that stands in a page-level loop, the alias / variables of a fill that stands in a loop.
+    # The reader prints those names, the loop variable and forloop.counter.
+    rd = ("rd", {"tpl": [T("rd["), ("out", ("var", "w")), T("|"), ("out", ("var", "d")), T("|"), ("out", ("var", "sd")), T("|"),
+                         ("out", ("var", "x")), T("|"), ("out", ("counter",)), T("]")], "data": [("own", ("kw", "a"))]})
+    sl = ("sl", {"tpl": [T("sl("), ("slot", "s", True, False, [("k", ("str", "K"))], []), T(")")], "data": []})
+    for mode in ("isolated", "django"):
+        only = mode == "django"
+        shapes = {
+            "for-with-tag": ([rd], [("for", "x", ("var", "xs"), [("with", "w", ("str", "W"), [("comp", "rd", [], only, [])])])]),
+            "for-with-with-tag": ([rd], [("for", "x", ("var", "xs"), [("with", "w", ("str", "W"), [("with", "d", ("str", "D"), [("comp", "rd", [], only, [])])])])]),
+            "with-for-tag": ([rd], [("with", "w", ("str", "W"), [("for", "x", ("var", "xs"), [("comp", "rd", [], only, [])])])]),
+            "for-parent-data": ([rd, ("pa", {"tpl": [T("pa:"), ("comp", "rd", [], only, []), T(";")], "data": [("d", ("kw", "a"))]})],
+                                [("for", "x", ("var", "xs"), [("comp", "pa", [("a", ("str", "D"))], only, [])])]),
+            "for-parent-with": ([rd, ("pa", {"tpl": [T("pa:"), ("with", "w", ("str", "W"), [("comp", "rd", [], only, [])]), T(";")], "data": [("d", ("kw", "a"))]})],
+                                [("for", "x", ("var", "xs"), [("comp", "pa", [("a", ("str", "D"))], only, [])])]),
+            "for-fill-tag": ([rd, sl], [("for", "x", ("var", "xs"), [("comp", "sl", [], only, [("fill", ("str", "s"), "sd", None, [("comp", "rd", [], only, [])])])])]),
+            "for-with-fill-tag": ([rd, sl], [("for", "x", ("var", "xs"), [("comp", "sl", [], only, [("with", "w", ("str", "W"), [("fill", ("str", "s"), "sd", None, [("comp", "rd", [], only, [])])])])])]),
+        }
+        for name in sorted(shapes):
+            lib, page = shapes[name]
+            out.append(("loops:between/%s" % name, mode,
+                        {"mode": mode, "lib": lib, "page": page, "ctx": [("p", "Pv"), ("xs", ["I1", "I2"])], "nerr": 0}))
     return out
 
 
